@@ -109,6 +109,24 @@ def _words_task(task, p):
             continue
         nf = check_order(out, x, p, sub, entry, (i, j))
         p.count(sub, evaluations=x.shape[0], nontrivial=nf)
+        # a negative value is not an observation: replacing it by nodata must leave every other index unchanged
+        hasneg = (x == NEG).any(axis=1)
+        if hasneg.any():
+            x2 = np.where(x == NEG, ND, x)[hasneg]
+            try:
+                out2 = run_entry(entry, x2, i, j)
+            except Exception:
+                out2 = None
+            if out2 is not None:
+                o1 = out[hasneg]
+                diff = (o1 != out2).any(axis=1)
+                p.count("negatives_as_nodata", evaluations=int(hasneg.sum()), nontrivial=int(hasneg.sum()))
+                xs = x[hasneg]
+                for r in np.nonzero(diff)[0][:3]:
+                    p.violation("negatives_as_nodata", {"entry": entry, "x": xs[r].tolist(), "window": [i, j]},
+                                {"kind": "order", "entry": entry, "x": xs[r].tolist(), "window": [i, j]},
+                                f"{entry}: SPI of {xs[r].tolist()} window [{i},{j}) -> {o1[r].tolist()}, but with the negative cells marked as nodata -> {out2[r].tolist()} "
+                                f"(negative values must not count as observations)")
     if n == 4 and (i, j) == (0, 3):
         p.sample(sub, {"word": x[1234].tolist(), "window": [i, j]})
 
@@ -174,6 +192,58 @@ def ladders(ctx):
                         ctx.violation(sub, dict(key, entry=entry), case,
                                       f"ladder shape={a} scale={scale} zero={with_zero} {dtype} [{entry}]: {msg}; series {np.array2string(s2, precision=4)} -> {out.tolist()}")
     ctx.sample(sub, {"shapes": shapes, "scales": scales, "exponents": EXPS, "dtypes": ["float64", "float32", "int16"]})
+
+
+def fine_ladders(ctx):
+    """Dense ladders: observations at 321 closely spaced quantile levels (z from -6 to 6 sigma in steps of 0.0375) of
+    the calibration distribution, for pixels with and without zeros: the index must be non-decreasing all the way
+    (a formula that switches branch in a tail shows as a downward jump between neighbouring rungs)."""
+    st = _st()
+    sub = "fine_ladders"
+    zs = np.linspace(-6, 6, 321)
+    lev = sc.ndtr(zs)
+    for a, scale in itertools.product((0.5, 2, 10, 100), (1, 100)):
+        ncal = 30
+        cal = scale * sc.gammaincinv(a, (np.arange(ncal) + 0.5) / ncal)
+        for zshare in (0.0, 0.2, 0.5, 0.8):
+            rungs = scale * sc.gammaincinv(a, lev)
+            rungs = rungs[(rungs > 0) & np.isfinite(rungs)]
+            rungs = np.unique(rungs)
+            npos = ncal + len(rungs)
+            nzero = int(round(zshare / (1 - zshare) * npos)) if zshare else 0
+            series = np.concatenate([cal, np.zeros(nzero), rungs])
+            for dtype in ("float64", "float32"):
+                s2 = series.astype(dtype).astype(np.float64)
+                n = len(s2)
+                key = {"shape": a, "scale": scale, "zero_share": zshare, "dtype": dtype}
+                case = {"kind": "fine", **key}
+                for entry in ("yxt", "grp"):
+                    if entry == "grp" and dtype == "float64":
+                        continue
+                    try:
+                        if entry == "yxt":
+                            out = np.asarray(st.gammastd_yxt(s2.astype(dtype).reshape(1, 1, n), ND, 0, ncal)).reshape(n)
+                        else:
+                            out = np.asarray(st.gammastd_grp(s2.astype(dtype).reshape(1, n), np.zeros(n, "int16"), 1, ND, np.array([[0, ncal]], "int16"))).reshape(n)
+                    except Exception as e:
+                        ctx.violation(sub, dict(key, entry=entry), case, f"fine ladder {key} [{entry}] raised {type(e).__name__}: {e}")
+                        continue
+                    ctx.count(sub, evaluations=1, nontrivial=int(zshare > 0))
+                    o = out.astype(np.int64)
+                    order = np.argsort(s2, kind="stable")
+                    xo, oo = s2[order], o[order]
+                    msg = None
+                    if (oo == ND).any():
+                        t = int(np.nonzero(oo == ND)[0][0])
+                        msg = f"valid observation {xo[t]!r} returned as nodata"
+                    elif (np.diff(oo) < 0).any():
+                        t = int(np.nonzero(np.diff(oo) < 0)[0][0])
+                        msg = f"observation {xo[t]!r} -> {int(oo[t])} but the larger observation {xo[t + 1]!r} -> {int(oo[t + 1])}"
+                    elif ((np.diff(xo) == 0) & (np.diff(oo) != 0)).any():
+                        msg = "equal observations received different indices"
+                    if msg:
+                        ctx.violation(sub, dict(key, entry=entry), case, f"fine ladder shape={a} scale={scale} zeros={zshare} {dtype} [{entry}]: {msg}")
+    ctx.sample(sub, {"levels": "Phi(z), z = -6..6 step 0.0375", "shapes": [0.5, 2, 10, 100], "zero_shares": [0, 0.2, 0.5, 0.8]})
 
 
 # ------------------------------------------------------------------ bad pixel placement
@@ -260,6 +330,7 @@ def run(ctx):
     ctx.note("alphabet", ["ND", NEG] + letters)
     ctx.note("max_len", maxn)
     ladders(ctx)
+    fine_ladders(ctx)
     placement(ctx)
 
 
@@ -276,5 +347,7 @@ def replay(sub, case, p):
         check_order(out, x, p, sub, case["entry"], (i, j))
     elif k == "ladder":
         ladders(p)
+    elif k == "fine":
+        fine_ladders(p)
     else:
         placement(p)
